@@ -4,6 +4,7 @@ import (
 	"errors"
 	"fmt"
 	goio "io"
+	"os"
 	"path/filepath"
 	"sort"
 
@@ -188,6 +189,15 @@ func (wf *WALFileType) replayTGData(tgID int64, wtSets []wal.WTSet) (err error) 
 	for _, wtSet := range wtSets {
 		fp, err2 := cfp.GetFP(wtSet.FilePath)
 		if err2 != nil {
+			if errors.Is(err2, os.ErrNotExist) {
+				// The file was removed after this transaction had been logged (its
+				// bucket was destroyed): there is nothing left to restore for this
+				// write set. The other write sets of the transaction and the later
+				// transactions in this WAL file still have to be replayed.
+				log.Warn(fmt.Sprintf("skipping a write transaction set of tgID=%d: %s no longer exists",
+					tgID, wtSet.FilePath))
+				continue
+			}
 			return wal.ReplayError{
 				Msg: fmt.Sprintf("failed to open a filepath %s in write transaction set:%v",
 					wtSet.FilePath, err2.Error(),
